@@ -1,0 +1,66 @@
+// Verification hooks. Compiled only with `--cfg cteenergymodel_verif`; never part of a normal
+// build. With the cfg on but no simulator installed every hook is a no-op, so behaviour is
+// unchanged. The simulator (outside this repository) installs three plain function pointers:
+//
+// - `acquire(lock, name)`: called just before one of the process-wide climate tables is
+//   locked; a scheduling point at which the caller may only continue while the simulator's
+//   own lock table says the lock is free.
+// - `release(lock)`: called after the guard has been dropped (also while unwinding).
+// - `point(name)`: a scheduling point / fuel tick inside loops whose bound depends on data.
+
+use std::sync::atomic::{AtomicPtr, Ordering};
+
+/// Callbacks installed by the simulator
+pub struct Hooks {
+    pub acquire: fn(usize, &'static str),
+    pub release: fn(usize),
+    pub point: fn(&'static str),
+}
+
+static HOOKS: AtomicPtr<Hooks> = AtomicPtr::new(std::ptr::null_mut());
+
+/// Installs the callbacks (once per process; later calls replace them)
+pub fn install(hooks: Hooks) {
+    let p = Box::into_raw(Box::new(hooks));
+    HOOKS.store(p, Ordering::SeqCst);
+}
+
+#[inline]
+fn hooks() -> Option<&'static Hooks> {
+    let p = HOOKS.load(Ordering::Acquire);
+    if p.is_null() {
+        None
+    } else {
+        // Installed boxes are never freed
+        Some(unsafe { &*p })
+    }
+}
+
+/// Scheduling point / fuel tick
+#[inline]
+pub fn point(name: &'static str) {
+    if let Some(h) = hooks() {
+        (h.point)(name);
+    }
+}
+
+/// Lives around a critical section: `acquire` on creation, `release` on drop.
+/// Declare it *before* the guard so that it is dropped *after* it.
+pub struct LockScope(usize);
+
+impl Drop for LockScope {
+    fn drop(&mut self) {
+        if let Some(h) = hooks() {
+            (h.release)(self.0);
+        }
+    }
+}
+
+/// Announces that the lock `m` is about to be taken
+pub fn lock_scope<T>(m: &T, name: &'static str) -> LockScope {
+    let addr = m as *const T as usize;
+    if let Some(h) = hooks() {
+        (h.acquire)(addr, name);
+    }
+    LockScope(addr)
+}
